@@ -439,6 +439,15 @@ func fixTransferEncoding(requestMethod string, header Header) ([]string, error) 
 // function is not a method, because ultimately it should be shared by
 // ReadResponse and ReadRequest.
 func fixLength(isResponse bool, status int, requestMethod string, header Header, te []string) (int64, error) {
+	// Multiple Content-Length fields must all carry the same value (RFC 7230 3.3.3 (4))
+	if contentLens := header["Content-Length"]; len(contentLens) > 1 {
+		first := strings.TrimSpace(contentLens[0])
+		for _, ct := range contentLens[1:] {
+			if first != strings.TrimSpace(ct) {
+				return 0, fmt.Errorf("http: message cannot contain multiple Content-Length headers; got %q", contentLens)
+			}
+		}
+	}
 
 	// Logic based on response type or status
 	if noBodyExpected(requestMethod) {
